@@ -11,6 +11,7 @@ import (
 	"sort"
 	"strconv"
 	"strings"
+	"time"
 
 	"pgregory.net/rapid"
 
@@ -29,6 +30,7 @@ const (
 	bDie      = "die"         // exits inside the handler of its K-th lifecycle event
 	bDieAfter = "dieafter"    // exits right after answering its K-th lifecycle event
 	bLinger   = "lingerafter" // closes its connection right after answering its K-th lifecycle event, keeps running
+	bCloseAt  = "closeat"     // closes its connection inside the handler of its K-th lifecycle event, keeps running
 	bHang     = "hang"        // never answers its K-th lifecycle event
 	bGarbage  = "garbage"     // executable regular file that is no program: fails to start
 )
@@ -63,7 +65,7 @@ type Plugin struct {
 
 func (p Plugin) hasK() bool {
 	switch p.Behav {
-	case bExit, bDie, bDieAfter, bLinger, bHang:
+	case bExit, bDie, bDieAfter, bLinger, bCloseAt, bHang:
 		return true
 	}
 	return false
@@ -72,7 +74,7 @@ func (p Plugin) hasK() bool {
 // failsAtEvent: the plugin starts up all right and fails at its K-th lifecycle event.
 func (p Plugin) failsAtEvent() bool {
 	switch p.Behav {
-	case bDie, bDieAfter, bLinger, bHang:
+	case bDie, bDieAfter, bLinger, bCloseAt, bHang:
 		return true
 	}
 	return false
@@ -97,7 +99,7 @@ func (p Plugin) File() string { return p.Idx + "-" + p.Base() }
 // reachesConfigure: the process registers and is sent Configure.
 func (p Plugin) reachesConfigure() bool {
 	switch p.Behav {
-	case bOK, bCfgFail, bCfgHang, bSyncFail, bDie, bDieAfter, bLinger, bHang:
+	case bOK, bCfgFail, bCfgHang, bSyncFail, bDie, bDieAfter, bLinger, bCloseAt, bHang:
 		return true
 	}
 	return false
@@ -106,7 +108,7 @@ func (p Plugin) reachesConfigure() bool {
 // startsUp: the process gets through registration, configuration and synchronization.
 func (p Plugin) startsUp() bool {
 	switch p.Behav {
-	case bOK, bDie, bDieAfter, bLinger, bHang:
+	case bOK, bDie, bDieAfter, bLinger, bCloseAt, bHang:
 		return true
 	}
 	return false
@@ -162,7 +164,14 @@ type C18Case struct {
 	// (listing pods failed); "fail_after" calls the callback and then returns an error
 	// (applying the plugins' updates failed). Start then fails as a whole.
 	SyncFn string `json:"runtime_syncfn,omitempty"`
+	// StopAfter is when the runtime calls Stop relative to the return of the last request:
+	// "" after the harness has watched the last request's drops complete (settled); "0"
+	// immediately, "1ms", "20ms", "500ms" that much later — in these cases nothing is
+	// waited for or looked at between the last request and Stop.
+	StopAfter string `json:"stop_after,omitempty"`
 }
+
+var stopDelays = map[string]time.Duration{"": 0, "0": 0, "1ms": time.Millisecond, "20ms": 20 * time.Millisecond, "500ms": 500 * time.Millisecond}
 
 var opKinds = []string{
 	"RunPodSandbox", "UpdatePodSandbox", "PostUpdatePodSandbox", "StopPodSandbox", "RemovePodSandbox",
@@ -213,6 +222,7 @@ func genC18(t *rapid.T) C18Case {
 	nPlug := rapid.SampledFrom([]int{0, 1, 2, 2, 3, 3, 3, 4, 4, 5}).Draw(t, "nplugins")
 	sleepers, hangers := 0, 0
 	cfgHangers := 0
+	closeK := 0
 	// stacked waits (≈ 6 s per case, hence rare): three or four plugins that never register /
 	// never answer Configure with the lowest indices, healthy ones behind them
 	// Only in the thorough tier (the quick tier's sweep has one such case): probability 2^-5
@@ -263,7 +273,7 @@ func genC18(t *rapid.T) C18Case {
 			p.Stem, p.Behav, p.K, p.Garbage = src.Idx+"-"+src.Stem, src.Behav, src.K, src.Garbage
 		} else {
 			p.Stem = rapid.SampledFrom(stemPool).Draw(t, "stem")
-			pool := []string{bOK, bOK, bOK, bOK, bOK, bOK, bExit, bExit, bCloseFD, bCfgFail, bSyncFail, bDie, bDie, bDieAfter, bDieAfter, bLinger, bLinger, bGarbage}
+			pool := []string{bOK, bOK, bOK, bOK, bOK, bOK, bExit, bExit, bCloseFD, bCfgFail, bSyncFail, bDie, bDie, bDieAfter, bDieAfter, bLinger, bLinger, bCloseAt, bCloseAt, bCloseAt, bGarbage}
 			if sleepers == 0 {
 				pool = append(pool, bSleep)
 			}
@@ -293,6 +303,20 @@ func genC18(t *rapid.T) C18Case {
 			if p.failsAtEvent() {
 				// K = len(ops)+1: the fault never triggers, the plugin lives until Stop
 				p.K = rapid.IntRange(1, len(c.Ops)+1).Draw(t, "k")
+				// several plugins found closed by one request, ideally the last one before Stop
+				if p.Behav == bCloseAt && rapid.Bool().Draw(t, "k_last") {
+					p.K = len(c.Ops)
+				}
+				if p.Behav == bCloseAt {
+					// clusters: further closeat plugins tend to pick the same request
+					if closeK > 0 && rapid.Bool().Draw(t, "k_same") {
+						p.K = closeK
+					}
+					closeK = p.K
+				}
+				if p.Behav == bLinger && len(c.Ops) > 1 && rapid.Bool().Draw(t, "k_before_last") {
+					p.K = len(c.Ops) - 1
+				}
 			}
 		}
 		// construction, not filtering: make the file name unique by growing the stem
@@ -301,6 +325,29 @@ func genC18(t *rapid.T) C18Case {
 		}
 		used[p.File()] = true
 		c.Plugins = append(c.Plugins, p)
+	}
+
+	// burst (1 case in 4): all healthy plugins but one close their connection in the last
+	// request and keep running, and Stop follows within a millisecond
+	burst := rapid.SampledFrom([]bool{false, true, false, false, true, false, false, false}).Draw(t, "burst")
+	if burst {
+		kept := false
+		for i := range c.Plugins {
+			p := &c.Plugins[i]
+			if p.Behav != bOK {
+				continue
+			}
+			if !kept {
+				kept = true
+				continue
+			}
+			delete(used, p.File())
+			p.Behav, p.K = bCloseAt, len(c.Ops)
+			for used[p.File()] {
+				p.Stem += "x"
+			}
+			used[p.File()] = true
+		}
 	}
 
 	// other entries of the plugin directory
@@ -419,6 +466,21 @@ func genC18(t *rapid.T) C18Case {
 	}
 	c.SyncPods = rapid.IntRange(0, 3).Draw(t, "syncpods")
 	c.SyncCtrs = rapid.IntRange(0, 3).Draw(t, "syncctrs")
+	c.StopAfter = rapid.SampledFrom([]string{"0", "0", "", "", "0", "1ms", "20ms", "500ms"}).Draw(t, "stop_after")
+	if burst {
+		c.StopAfter = rapid.SampledFrom([]string{"0", "0", "1ms"}).Draw(t, "stop_after_burst")
+	}
+	if c.StopAfter != "" {
+		// nothing may happen between the last request and Stop
+		for i := range c.Exts {
+			if c.Exts[i].Join == len(c.Ops) {
+				c.Exts[i].Join = len(c.Ops) - 1
+			}
+			if c.Exts[i].Leave == len(c.Ops) {
+				c.Exts[i].Leave = len(c.Ops) + 1
+			}
+		}
+	}
 	c.SyncFn = rapid.SampledFrom([]string{"", "", "", "", "", "", "", "", "fail_before", "fail_after"}).Draw(t, "runtime_syncfn")
 	return c
 }
@@ -436,7 +498,7 @@ func validate(c C18Case) error {
 			return fmt.Errorf("bad stem %q", p.Stem)
 		}
 		switch p.Behav {
-		case bOK, bExit, bCloseFD, bCfgFail, bSyncFail, bDie, bDieAfter, bLinger, bGarbage:
+		case bOK, bExit, bCloseFD, bCfgFail, bSyncFail, bDie, bDieAfter, bLinger, bCloseAt, bGarbage:
 		case bCfgHang:
 			cfgHangers++
 		case bSleep:
@@ -523,6 +585,9 @@ func validate(c C18Case) error {
 	}
 	if c.SyncFn != "" && c.SyncFn != "fail_before" && c.SyncFn != "fail_after" {
 		return fmt.Errorf("unknown runtime_syncfn %q", c.SyncFn)
+	}
+	if _, ok := stopDelays[c.StopAfter]; !ok {
+		return fmt.Errorf("unknown stop_after %q", c.StopAfter)
 	}
 	if len(c.Exts) > 8 {
 		return fmt.Errorf("too many external plugins")
